@@ -125,6 +125,10 @@ func (s *vStaking) isActive(i int) bool { return s.vals[i].IsBonded() && !s.vals
 func (s *vStaking) UnbondingTime(ctx context.Context) (time.Duration, error) { return s.unbonding, nil }
 func (s *vStaking) MaxValidators(ctx context.Context) (uint32, error)        { return s.maxVals, nil }
 func (s *vStaking) PowerReduction(ctx context.Context) math.Int              { return sdk.DefaultPowerReduction }
+func (s *vStaking) MinCommissionRate(ctx context.Context) (math.LegacyDec, error) {
+	return math.LegacyZeroDec(), nil
+}
+
 func (s *vStaking) BondDenom(ctx context.Context) (string, error)            { return "stake", nil }
 
 func (s *vStaking) GetLastValidatorPower(ctx context.Context, operator sdk.ValAddress) (int64, error) {
